@@ -373,3 +373,36 @@ pub proof fn lemma_handed_extends<T>(l0: Seq<Sent<T>>, l1: Seq<Sent<T>>, n0: int
         }
     }
 }
+// ---- exec_command_browse, event side ----
+#[verifier::external_body]
+pub fn vx_min_u32(a: u32, b: u32) -> (r: u32)
+    ensures r == (if a <= b { a } else { b }),
+{ core::cmp::min(a, b) }
+impl Zeroconf {
+    // HashMap::get_mut based; only the metrics map changes
+    #[verifier::external_body]
+    pub fn increase_counter(&mut self, counter: Counter, count: i64)
+        ensures *final(self) == (Zeroconf { counters: final(self).counters, ..*old(self) }),
+    { unimplemented!() }
+    // proved in unit schedule
+    #[verifier::external_body]
+    pub fn add_retransmission(&mut self, next_time: u64, command: Command)
+        ensures *final(self) == (Zeroconf { retransmissions: final(self).retransmissions, timers: final(self).timers, ..*old(self) }),
+    { unimplemented!() }
+}
+pub proof fn lemma_extends_idx<T>(a: Seq<Sent<T>>, b: Seq<Sent<T>>)
+    requires extends(a, b),
+    ensures forall|k: int| 0 <= k < a.len() ==> #[trigger] b[k] == a[k],
+{
+    assert forall|k: int| 0 <= k < a.len() implies #[trigger] b[k] == a[k] by {
+        assert(b.subrange(0, a.len() as int)[k] == a[k]);
+    }
+}
+// ---- exec_command_resolve_hostname, event side ----
+impl Zeroconf {
+    // proved in unit schedule: the resolver is stored under the lower-cased name (with its deadline and timer)
+    #[verifier::external_body]
+    pub fn add_hostname_resolver(&mut self, hostname: String, listener: Sender<HostnameResolutionEvent>, timeout: Option<u64>)
+        ensures *final(self) == (Zeroconf { hostname_resolvers: final(self).hostname_resolvers, timers: final(self).timers, ..*old(self) }),
+    { unimplemented!() }
+}
